@@ -310,3 +310,70 @@ def rule_classes_partition(ctx):
                 st.append(sc)
         r.check(not escaped, "%s|loop" % F.id, "argument-without-class", "an iteration opens a class unless its argument is already classified", "an iteration of the loop over the arguments can end without opening a class for an argument that is not classified yet: the mappings are not total", F.loc())
     r.floor(n2, 1, "loops opening classes")
+
+
+def rule_merge_test(ctx):
+    prog = ctx.prog
+    r = ctx.rule(
+        "mutual-reachability",
+        "class construction (the mechanism the property names): a candidate x taken from the propagation of the class seed joins the class only "
+        "under the test `propagation(x) contains the seed` - each one's propagation reaches the other; and the attacker counters every "
+        "propagation starts from are the plain in-degrees (incremented once per stored attack, never lowered or otherwise rewritten)",
+    )
+    from .grounded import inherited_conditions, _cond_trees
+
+    mod = TYPE.rsplit("::", 1)[0]
+    fns = [b for b in prog.lib_bodies() if b.kind != "closure" and b.path.startswith(mod + "::") and re.match(r"^alloc::vec::Vec<%s::\w+>$" % re.escape(mod), b.ret_ty)]
+    if not r.require_anchor(len(fns) == 1, "the function returning the class list"):
+        return
+    F = fns[0]
+    bodies = prog.with_closures(F)
+    # seeds: the ids new classes are opened for
+    seeds = set()
+    for y in bodies:
+        for s in y.sites():
+            nd = s.node
+            if s.si is not None and nd["k"] == "assign" and nd["rv"]["k"] == "aggregate" and nd["rv"]["agg"].get("kind") == "array" and len(nd["rv"]["ops"]) == 1 and "usize" in str(nd["rv"]["agg"].get("ty")):
+                seeds |= set(prov(prog, y, nd["rv"]["ops"][0]))
+    n = 0
+    for y in bodies:
+        for s in y.calls():
+            if callee_decl(callee_of(s)) == "alloc::vec::Vec::push" and "usize" in str(callee_of(s).get("substs")) and mod not in str(callee_of(s).get("substs")):
+                xs = set(prov(prog, y, s.node["args"][1]))
+                conds = [(e, t) for e, t in _cond_trees(prog, inherited_conditions(prog, y, s.bb)) if e[0] == "call" and re.search(r"slice::.*contains$|slice::contains$|Vec::contains$", e[1]) and len(e[2]) == 2]
+                anchor = "%s|merge#%d" % (F.id, n)
+                n += 1
+                if not conds:
+                    r.ok(anchor, "NOT decided: no `contains` test governs this push", s.loc())
+                    continue
+                for e, t in conds:
+                    P_, S_ = e[2]
+                    S_alts = set(S_[1]) if S_[0] == "alt" else {S_}
+                    own = bool(S_alts & xs)
+                    if own:
+                        r.violation(anchor, "tests-own-membership", "the candidate joins the class when its propagation contains *itself* (always true): only one direction of the mutual reachability is tested", s.loc())
+                        continue
+                    is_seed = bool(S_alts & seeds) and t is True
+                    about_x = any(x in subterms(P_) or any(x in (set(a[1]) if isinstance(a, tuple) and a[0] == "alt" else {a}) for a in subterms(P_) if isinstance(a, tuple)) for x in xs)
+                    r.check(is_seed and about_x, anchor, "merge-test", "joins under `propagation(candidate) contains the seed`", "the candidate joins the class under the test %s %s, which is not `its own propagation contains the class seed`" % (show(e)[:100], t), s.loc())
+    r.floor(n, 1, "members pushed into classes")
+    # the in-degree counters
+    n2 = 0
+    for y in bodies:
+        for s in y.calls():
+            if callee_decl(callee_of(s)) != "core::ops::index::IndexMut::index_mut":
+                continue
+            recv = prov(prog, y, s.node["args"][0])
+            if not any(e[0] == "call" and e[1].endswith("from_elem") and e[2] and e[2][0] == ("const", 0) for e in recv):
+                continue
+            for op in _stores_through(y, s):
+                for e in prov(prog, y, op):
+                    core_ = e[1] if e[0] == "field" and e[2] == "0" and e[1][0] == "op" else e
+                    if core_[0] != "op":
+                        continue
+                    n2 += 1
+                    anchor = "%s|counter-store#%d" % (F.id, n2)
+                    idx = _one(prov(prog, y, s.node["args"][1]))
+                    good = core_[1] in ("Add", "AddWithOverflow") and core_[2][1] == ("const", 1) and idx is not None and idx[0] == "call" and idx[1].endswith("Label::id") and _calls_in(idx, r"::attacked$") and _calls_in(idx, r"AAFramework::iter_attacks$")
+                    r.check(good, anchor, "counter-rewritten:%s" % core_[1], "counters are incremented once per stored attack, at the attacked argument", "the attacker counters are rewritten (%s at %s): the propagations no longer start from the in-degrees" % (core_[1], show(idx)[:80] if idx else "?"), s.loc())
+    r.floor(n2, 1, "stores into the in-degree counters")
